@@ -69,6 +69,13 @@ def analyse(prop, spec, ops, model, impl, crashes):
         if a["head"] == "crash":
             # not answered because an earlier op of the shard crashed and restart failed
             continue
+        if meta.get("modelonly"):
+            # evaluated by the model only (no real-code counterpart): must not be a fault / bad-op
+            if m["head"] != "ok":
+                corr.append(dict(meta=meta, kind="model-op-failed", op=line, model=model[i], impl=impl[i]))
+            else:
+                agreed += 1
+            continue
         if meta.get("modelless"):
             # real-code-only op (oracle / guard pages / monitors); no model counterpart
             m = dict(a)
@@ -94,6 +101,13 @@ def analyse(prop, spec, ops, model, impl, crashes):
         if "badloads" in spec["impl"] and a.get("badloads", "0") != "0":
             real.append(dict(meta=meta, kind="out-of-bounds-or-misaligned-load", op=line, impl=impl[i], model=model[i]))
             ok_here = False
+        if "allocs" in spec["impl"] and line.startswith("finderops") and "allocs" in a and "allocs" in m \
+                and a["head"] == "ok" and m["head"] == "ok":
+            # the model's allocation count is the specification (C17 theorems): only the owning
+            # conversions allocate
+            if int(a["allocs"]) != int(m["allocs"]):
+                real.append(dict(meta=meta, kind="unexpected-allocation", op=line, impl=impl[i], model=model[i]))
+                ok_here = False
         if "allocs" in spec["impl"] and meta.get("allocs") is not None and "allocs" in a:
             if int(a["allocs"]) != meta["allocs"]:
                 real.append(dict(meta=meta, kind="unexpected-allocation", op=line, impl=impl[i], expected=meta["allocs"]))
